@@ -35,3 +35,8 @@ CASES = [
          old="   } else if (mCurrArgStringLen == mArgCharPos + 1)\n   {\n      // one dash -> next is argument character",
          new="   } else if (mpArgV[ mArgIndex][ mArgCharPos + 1] == '\\0')\n   {\n      // one dash -> next is argument character"),
 ]
+
+CASES += [
+    dict(id='c04-cursor-no-progress-in-group', prop='C04', file='src/celma/prog_args/detail/arg_list_iterator.hpp', expect='R*',
+         old="                               mpArgV[ mArgIndex][ mArgCharPos]);\n      ++mArgCharPos;\n   } // end if", new="                               mpArgV[ mArgIndex][ mArgCharPos]);\n   } // end if"),
+]
